@@ -1128,8 +1128,8 @@ def evaluate__xml_to_json(self: XPathFunction, context: ta.ContextType = None) \
 
     if len(self) > 1:
         options = self.get_argument(context, index=1, required=True, cls=XPathMap)
-        indent = options(context, 'indent')
-        if indent is not None and isinstance(indent, bool):
+        indent = options('indent', context=context)
+        if indent != [] and not isinstance(indent, bool):
             raise self.error('FOJS0005')
 
     def elem_to_json(elements: Iterable[ElementProtocol]) -> str:
